@@ -417,3 +417,63 @@ func HasSkew(from, to *schema.Schema, t schema.Type, v Value) bool {
 	}
 	return false
 }
+
+// SkewUnderNestedStruct reports whether some message field that the reader's schema does
+// not know (or has deprecated) sits, at any depth, inside a STRUCT that is not the root
+// record. A struct has no length prefix on the wire, so a reader that steps over a nested
+// struct by re-computing its size from what it understood is thrown off exactly then.
+func SkewUnderNestedStruct(from, to *schema.Schema, t schema.Type, v Value) bool {
+	return skewUnder(from, to, t, v, true)
+}
+
+func skewUnder(from, to *schema.Schema, t schema.Type, v Value, root bool) bool {
+	switch {
+	case t.Array != nil:
+		for _, e := range v.Elems {
+			if skewUnder(from, to, *t.Array, e, false) {
+				return true
+			}
+		}
+		return false
+	case t.MapV != nil:
+		for _, e := range v.Vals {
+			if skewUnder(from, to, *t.MapV, e, false) {
+				return true
+			}
+		}
+		return false
+	case t.Prim != "":
+		return false
+	}
+	d := from.Lookup(t.Named)
+	if d == nil {
+		return false
+	}
+	switch d.Kind {
+	case schema.KStruct:
+		if !root {
+			return HasSkew(from, to, t, v)
+		}
+		for i, f := range d.Fields {
+			if i < len(v.Elems) && skewUnder(from, to, f.Type, v.Elems[i], false) {
+				return true
+			}
+		}
+	case schema.KMessage:
+		for _, mf := range v.Fields {
+			if fd := msgField(d, mf.Index); fd != nil && skewUnder(from, to, fd.Type, mf.V, false) {
+				return true
+			}
+		}
+	case schema.KUnion:
+		if v.Body != nil {
+			for _, b := range d.Branches {
+				if b.Disc == v.Disc {
+					// a union branch struct is length-delimited by the union itself
+					return skewUnder(from, to, schema.Type{Named: b.Def.Name}, *v.Body, true)
+				}
+			}
+		}
+	}
+	return false
+}
